@@ -5,12 +5,18 @@
      * every table vp8.rs decodes with is the normative one (coefficient probabilities and their update probabilities,
        key-frame mode trees and probabilities incl. the 10x10x9 sub-block mode contexts, token tree, DCT categories,
        bands, zig-zag, DC/AC quantiser tables), modulo an explicit, bijective renumbering of modes / tree leaves;
-     * the scalar kernels equal the reference forms (averaging predictors, loop-filter clamps and conversions).
+     * the scalar kernels equal the reference forms (averaging predictors, loop-filter clamps and conversions);
+     * the imperative kernels of loop_filter.rs and transform.rs, translated on every run by tools/rs2v_imp.py into functions of
+       the 8 edge samples / 16 block cells, equal the reference: the three edge filters (simple, sub-block, macroblock) leave
+       exactly the samples Spec.VP8's simple_edge / inner_edge / mb_edge leave at every edge position of every array, with the
+       Rust arguments (edge_limit, interior_limit, hev_threshold) = the Spec arguments (thresh, ithresh, hevt); idct4x4 and
+       iwht4x4 equal Spec.VP8.idct / iwht for every block within 2^29 / 2^27 - 1 (the sharp bounds for exact i32 casts).
    NOT proved (the two structural links of DESIGN.md section 6 C02: interleaved parsing with contexts = AST parse, workspace /
    border bookkeeping = frame-addressed reconstruction and per-macroblock filter traversal): decided on every run by the
    whole-frame correspondence implementation = Spec.VP8.decode on generated key frames (harness c02), and on libwebp. *)
 From Coq Require Import ZArith List Lia.
-From WebP Require Import Gen.Tables Gen.Kernels Lib.ZBits Spec.VP8Tables Spec.VP8 Proofs.VP8_tables Proofs.VP8_kernels.
+From WebP Require Import Gen.Tables Gen.Kernels Lib.ZBits Lib.Arr Spec.VP8Tables Spec.VP8 Proofs.VP8_tables Proofs.VP8_kernels
+  Proofs.VP8_arraykernels_aux Proofs.VP8_arraykernels.
 Import ListNotations.
 Open Scope Z_scope.
 
@@ -63,4 +69,31 @@ Theorem loop_filter_scalars : forall v a b, byte a -> byte b -> -2147483520 <= v
 Proof.
   intros v a b Ha Hb Hv. split; [apply lf_c_spec|]. split; [apply lf_s2u_spec; lia|].
   split; [exact (proj1 (lf_u2s_spec a Ha)) | exact (proj1 (lf_diff_spec a b Ha Hb))].
+Qed.
+
+(* loop filter: at every edge position (8 distinct, non-negative indices i-4*step .. i+3*step) of every array, the Spec's
+   edge function equals writing back what the translated Rust kernel computes from the 8 samples it reads *)
+Theorem loop_filter_kernels_refine : forall hev_threshold interior_limit edge_limit step a i, edge_pos i step ->
+  arr_ext (Spec.VP8.simple_edge step edge_limit a i)
+          (write_taps a i step (app8 (lf_simple_segment edge_limit) [] (taps_of a i step)))
+  /\ arr_ext (Spec.VP8.inner_edge step edge_limit interior_limit hev_threshold a i)
+          (write_taps a i step (app8 (lf_subblock_filter hev_threshold interior_limit edge_limit) [] (taps_of a i step)))
+  /\ arr_ext (Spec.VP8.mb_edge step edge_limit interior_limit hev_threshold a i)
+          (write_taps a i step (app8 (lf_macroblock_filter hev_threshold interior_limit edge_limit) [] (taps_of a i step))).
+Proof.
+  intros h il el step a i H. split; [exact (simple_segment_refines el step a i H)|].
+  split; [exact (subblock_filter_refines h il el step a i H) | exact (macroblock_filter_refines h il el step a i H)].
+Qed.
+
+Theorem transforms_refine : forall b0 b1 b2 b3 b4 b5 b6 b7 b8 b9 b10 b11 b12 b13 b14 b15,
+  (Forall (within dct_bound) [b0; b1; b2; b3; b4; b5; b6; b7; b8; b9; b10; b11; b12; b13; b14; b15] ->
+     idct4x4 b0 b1 b2 b3 b4 b5 b6 b7 b8 b9 b10 b11 b12 b13 b14 b15
+     = fst (Spec.VP8.idct [b0; b1; b2; b3; b4; b5; b6; b7; b8; b9; b10; b11; b12; b13; b14; b15]))
+  /\ (Forall (within wht_bound) [b0; b1; b2; b3; b4; b5; b6; b7; b8; b9; b10; b11; b12; b13; b14; b15] ->
+     iwht4x4 b0 b1 b2 b3 b4 b5 b6 b7 b8 b9 b10 b11 b12 b13 b14 b15
+     = fst (Spec.VP8.iwht [b0; b1; b2; b3; b4; b5; b6; b7; b8; b9; b10; b11; b12; b13; b14; b15])).
+Proof.
+  intros. split; intros H.
+  - exact (proj1 (idct4x4_refines b0 b1 b2 b3 b4 b5 b6 b7 b8 b9 b10 b11 b12 b13 b14 b15 H)).
+  - exact (proj1 (iwht4x4_refines b0 b1 b2 b3 b4 b5 b6 b7 b8 b9 b10 b11 b12 b13 b14 b15 H)).
 Qed.
